@@ -623,15 +623,24 @@ pub mod vec {
                 drop(self.pop());
             }
         }
+        // insert / remove / drain move elements between CONCRETE slots under symbolic guards (loops run over the whole capacity):
+        // with "while i > idx" style loops the slot indices themselves become symbolic and every nested use (the lexer's splice
+        // passes) multiplies the unwinding work.
         pub fn insert(&mut self, idx: usize, v: T) {
             assert!(idx <= self.len);
             if self.len >= N {
                 capacity_exceeded();
             }
-            let mut i = self.len;
-            while i > idx {
-                unsafe { let t = self.buf.read(i - 1); self.buf.write(i, t) };
-                i -= 1;
+            let len = self.len;
+            let mut j = N;
+            while j > 1 {
+                j -= 1;
+                if j > idx && j <= len {
+                    unsafe {
+                        let t = self.buf.read(j - 1);
+                        self.buf.write(j, t)
+                    };
+                }
             }
             unsafe { self.buf.write(idx, v) };
             self.len += 1;
@@ -640,10 +649,15 @@ pub mod vec {
             assert!(idx < self.len);
             let len = self.len;
             let out = unsafe { self.buf.read(idx) };
-            let mut i = idx;
-            while i + 1 < len {
-                unsafe { let t = self.buf.read(i + 1); self.buf.write(i, t) };
-                i += 1;
+            let mut j = 0;
+            while j + 1 < N {
+                if j >= idx && j + 1 < len {
+                    unsafe {
+                        let t = self.buf.read(j + 1);
+                        self.buf.write(j, t)
+                    };
+                }
+                j += 1;
             }
             self.len -= 1;
             out
@@ -678,20 +692,31 @@ pub mod vec {
             let (start, end) = self.bounds(range);
             let mut out: Vec<T, N> = Vec::new();
             let len = self.len;
-            if end > start {
-                let mut i = start;
-                while i < end {
-                    out.push(unsafe { self.buf.read(i) });
-                    i += 1;
+            let n = end - start;
+            // moved-out elements: out[j] = self[start + j]
+            let mut j = 0;
+            while j < N {
+                if j < n {
+                    unsafe {
+                        let t = self.buf.read(start + j);
+                        out.buf.write(j, t)
+                    };
                 }
-                let n = end - start;
-                let mut j = end;
-                while j < len {
-                    unsafe { let t = self.buf.read(j); self.buf.write(j - n, t) };
-                    j += 1;
-                }
-                self.len = len - n;
+                j += 1;
             }
+            out.len = n;
+            // tail: self[j] = self[j + n] for j in start .. len - n
+            let mut k = 0;
+            while k < N {
+                if k >= start && k + n < len {
+                    unsafe {
+                        let t = self.buf.read(k + n);
+                        self.buf.write(k, t)
+                    };
+                }
+                k += 1;
+            }
+            self.len = len - n;
             Drain { items: out, front: 0, _p: core::marker::PhantomData }
         }
         /// Eager splice (std's is lazy and applied on drop of the returned iterator; the repository drops it at once).
